@@ -536,6 +536,16 @@ Definition call_data (p : data_plan) (d : dreader) (t : transport)
   let '(got, term, d', t') := backend_reads (dp_sizes p) (dp_stop p) d t in
   (got, term, plan_ret p term, d', t').
 
+(* "_, err := io.Copy(ioutil.Discard, r)": err == nil iff the reader reached
+   the end marker (io.EOF); otherwise the position in the stream is unknown and
+   the handler closes the connection after its reply *)
+Definition drained (de : option rerr) : bool :=
+  match de with Some REOF => true | _ => false end.
+
+(* "if err != nil { c.Close() }" *)
+Definition close_unless (ok : bool) (c : conn) : hres :=
+  if ok then (c, []) else do_close c.
+
 Definition handle_data (cfg : config) (c : conn) (arg : bytes) : hres :=
   match arg with
   | _ :: _ => (c, [reply 501 (5, 5, 4)%Z (bs "DATA command should not have any arguments")])
@@ -558,10 +568,11 @@ Definition handle_data (cfg : config) (c : conn) (arg : bytes) : hres :=
         let '(c3, ev3) := do_close c2 in
         (c3, [go; EData got term ret true] ++ ev2 ++ [EPanic; reply 421 (4, 0, 0)%Z (bs "Internal server error")] ++ ev3)
       else
-        let '(_, _, t2) := dr_drain d1 t1 in
+        let '(de, _, t2) := dr_drain d1 t1 in
         let '(code, ec, msg) := data_error_to_status ret in
-        let '(c2, ev2) := do_reset (upd_t c1 t2) in
-        (c2, [go; EData got term ret false; reply code ec msg] ++ ev2)
+        let '(c2, ev2) := close_unless (drained de) (upd_t c1 t2) in
+        let '(c3, ev3) := do_reset c2 in
+        (c3, [go; EData got term ret false; reply code ec msg] ++ ev2 ++ ev3)
     else if negb (cf_lmtp_session cfg) then
       (* LMTP with a plain backend: one status for everybody *)
       if dp_panic p then
@@ -569,9 +580,10 @@ Definition handle_data (cfg : config) (c : conn) (arg : bytes) : hres :=
         let '(c3, ev3) := do_close c2 in
         (c3, [go; EData got term ret true] ++ ev2 ++ [EPanic; reply 421 (4, 0, 0)%Z (bs "Internal server error")] ++ ev3)
       else
-        let '(_, _, t2) := dr_drain d1 t1 in
-        let '(c2, ev2) := do_reset (upd_t c1 t2) in
-        (c2, [go; EData got term ret false] ++ map (fun a => status_reply a ret) (c_rcpts c1) ++ ev2)
+        let '(de, _, t2) := dr_drain d1 t1 in
+        let '(c2, ev2) := close_unless (drained de) (upd_t c1 t2) in
+        let '(c3, ev3) := do_reset c2 in
+        (c3, [go; EData got term ret false] ++ map (fun a => status_reply a ret) (c_rcpts c1) ++ ev2 ++ ev3)
     else
       (* LMTPSession: own goroutine; replies per recipient from the collector *)
       let '(sts, panicked) := lmtp_statuses (c_rcpts c1) (dp_status p) ret (dp_panic p) in
@@ -581,18 +593,21 @@ Definition handle_data (cfg : config) (c : conn) (arg : bytes) : hres :=
         let '(c3, ev3) := do_reset c2 in
         (c3, [go; EData got term ret true] ++ replies ++ ev2 ++ ev3)
       else
-        let '(_, _, t2) := dr_drain d1 t1 in
-        let '(c2, ev2) := do_reset (upd_t c1 t2) in
-        (c2, [go; EData got term ret false] ++ replies ++ ev2)
+        let '(de, _, t2) := dr_drain d1 t1 in
+        let '(c2, ev2) := close_unless (drained de) (upd_t c1 t2) in
+        let '(c3, ev3) := do_reset c2 in
+        (c3, [go; EData got term ret false] ++ replies ++ ev2 ++ ev3)
   end end.
 
 (* ---------- BDAT ---------- *)
 
-(* discardChunk *)
-Definition discard_chunk (cfg : config) (c : conn) (size : N) : conn :=
+(* discardChunk: fewer than [size] octets could be read (n < size): what comes
+   next on the connection is not a command, Close *)
+Definition discard_chunk (cfg : config) (c : conn) (size : N) : hres :=
   let t0 := set_limit (c_t c) 0 in
-  let '(_, _, t1) := t_copy_n size t0 in
-  upd_t c (set_limit t1 (cf_max_line cfg)).
+  let '(_, cerr, t1) := t_copy_n size t0 in
+  close_unless (match cerr with None => true | Some _ => false end)
+               (upd_t c (set_limit t1 (cf_max_line cfg))).
 
 Definition rerr_of_copy (e : terr) : rerr :=
   match e with TEof => RUnexpectedEOF | _ => RTransport e end.
@@ -622,7 +637,8 @@ Definition handle_bdat (cfg : config) (c : conn) (arg : bytes) : hres :=
   | PSyntax | PRange => (c, [reply 501 (5, 5, 4)%Z (bs "Malformed size argument")])
   | POk size =>
   if negb (c_from c) || match c_rcpts c with [] => true | _ => false end then
-    (discard_chunk cfg c size, [reply 502 (5, 5, 1)%Z (bs "Missing RCPT TO command.")])
+    let '(c1, ev1) := discard_chunk cfg c size in
+    (c1, reply 502 (5, 5, 1)%Z (bs "Missing RCPT TO command.") :: ev1)
   else
   let last_ok :=
     match more with
@@ -630,11 +646,14 @@ Definition handle_bdat (cfg : config) (c : conn) (arg : bytes) : hres :=
     | a1 :: _ => if equal_fold a1 (bs "LAST") then Some true else None
     end in
   match last_ok with
-  | None => (discard_chunk cfg c size, [reply 501 (5, 5, 4)%Z (bs "Unknown BDAT argument")])
+  | None =>
+      let '(c1, ev1) := discard_chunk cfg c size in
+      (c1, reply 501 (5, 5, 4)%Z (bs "Unknown BDAT argument") :: ev1)
   | Some last =>
   if negb (cf_max_bytes cfg =? 0)%Z && (cf_max_bytes cfg <? c_received c + Z.of_N size)%Z then
-    let '(c2, ev2) := do_reset (discard_chunk cfg c size) in
-    (c2, [reply 552 (5, 3, 4)%Z (bs "Max message size exceeded")] ++ ev2)
+    let '(c1, ev1) := discard_chunk cfg c size in
+    let '(c2, ev2) := do_reset c1 in
+    (c2, [reply 552 (5, 3, 4)%Z (bs "Max message size exceeded")] ++ ev1 ++ ev2)
   else
   if negb (c_session c) && match c_bdat c with None => true | Some _ => false end then (c, [EPanic]) else
   (* start the delivery if there is none *)
@@ -667,23 +686,27 @@ Definition handle_bdat (cfg : config) (c : conn) (arg : bytes) : hres :=
       (* failed chunk: "io.Copy(ioutil.Discard, chunk)".  After a write error the
          rest of the chunk has been consumed already (t_copy_n took all [size]
          octets, or stopped at a failing read, where the discard stops too); after
-         a READ error the discard goes on reading the rest of the declared size *)
-      let '(_, _, t1) :=
+         a READ error the discard goes on reading the rest of the declared size.
+         [short]: "chunk.N > 0", the declared octets could not all be read *)
+      let '(_, derr, t1) :=
         match werr, cerr with
         | None, Some _ => t_copy_n (size - blen chunk) t1
-        | _, _ => ([], None, t1)
+        | _, _ => ([], cerr, t1)
         end in
+      let short := match derr with Some _ => true | None => false end in
       let c1 := upd_bdat (upd_t c0 t1) (Some b1) in
       let '(c2, evr, closeit) :=
         if last && cf_lmtp cfg then
           (* CloseWithError(err); <-dataResult; per-recipient replies *)
           let '(b2, ev2) := bd_end b1 pe in
           let '(rs, _) := bdat_lmtp_replies cfg b2 e in
-          (upd_bdat c1 (Some b2), ev2 ++ rs, match werr with Some _ => bd_panics b1 | None => false end)
+          (upd_bdat c1 (Some b2), ev2 ++ rs,
+           (match werr with Some _ => bd_panics b1 | None => false end) || short)
         else
           let '(code, ec, msg) := data_error_to_status e in
-          (* "if err == errPanic": the pipe was closed by the panic handler *)
-          (c1, [reply code ec msg], match werr with Some _ => bd_panics b1 | None => false end) in
+          (* "if err == errPanic || chunk.N > 0": the pipe was closed by the panic
+             handler, or the rest of the chunk could not be read *)
+          (c1, [reply code ec msg], (match werr with Some _ => bd_panics b1 | None => false end) || short) in
       let '(c3, ev3) := if closeit then do_close c2 else (c2, []) in
       let '(c4, ev4) := do_reset c3 in
       (upd_t c4 (set_limit (c_t c4) (cf_max_line cfg)), ev0 ++ ev1 ++ evr ++ ev3 ++ ev4)
